@@ -121,6 +121,60 @@ static void fv_enum(unsigned w, int all_limit, valfn f, void* ctx)
         for (uint64_t c = 0; c < 65536; c++) f(c << pos, ctx);
 }
 
+static int hexval(char c) { return c <= '9' ? c - '0' : (c | 32) - 'a' + 10; }
+static void c02_prior_obj(Obj* o, int fmt)
+{
+    const RowFmt* F = &g_fmts[fmt];
+    obj_fill(o, F->len, 0x00);
+    if (F->has_init) for (size_t i = 0; F->init_hex[2 * i] && (int)i < F->len; i++) obj_hdr(o)[i] = (uint8_t)(hexval(F->init_hex[2 * i]) * 16 + hexval(F->init_hex[2 * i + 1]));
+}
+static void pv_enum(unsigned w, valfn f, void* ctx)
+{
+    uint64_t m = mask_w(w);
+    if (w <= 8) { for (uint64_t v = 0; v <= m; v++) f(v, ctx); return; }
+    for (uint64_t v = 0; v <= 65 && v <= m; v++) f(v, ctx);
+    f(m, ctx); f(0xA5A5A5A5A5A5A5A5ull & m, ctx);
+    for (unsigned i = 6; i < w; i++) { f(1ull << i, ctx); f((1ull << i) - 1, ctx); f((1ull << i) + 1, ctx); f(m ^ (1ull << i), ctx); }
+}
+static int overlaps(const RowField* a, const RowField* b) { return a->off < b->off + b->w && b->off < a->off + a->w; }
+
+/* sub 6: semantic priors for reads - the header is the format's initial image with one other field g := u and
+ * the field under test := v; a reader that consults other header bits (a mode-dependent decode) shows here */
+static void c01_prior_case(int fmt, int fld, int path, int g, uint64_t u, uint64_t v)
+{
+    const RowFmt* F = &g_fmts[fmt];
+    Obj o; c02_prior_obj(&o, fmt);
+    ref_set(obj_hdr(&o), (unsigned)F->f[g].off, (unsigned)F->f[g].w, u & mask_w((unsigned)F->f[g].w));
+    ref_set(obj_hdr(&o), (unsigned)F->f[fld].off, (unsigned)F->f[fld].w, v & mask_w((unsigned)F->f[fld].w));
+    c01_check(6, fmt, fld, path, g, (int64_t)u, v, &o);
+}
+typedef struct { int fmt, fld, path, g; uint64_t u; } C01PCtx;
+static void c01_pval(uint64_t v, void* vctx) { C01PCtx* c = vctx; c01_prior_case(c->fmt, c->fld, c->path, c->g, c->u, v); }
+static void suite_c01_priors(void)
+{
+    for (int fmt = 0; fmt < g_nfmts; fmt++) {
+        const RowFmt* F = &g_fmts[fmt];
+        for (int fld = 0; fld < F->nf; fld++) for (int path = 0; path <= F->f[fld].hasg; path++) {
+            if (!my_unit()) continue;
+            hs_reset();
+            const RowField* R = &F->f[fld];
+            C01PCtx c = { fmt, fld, path, 0, 0 };
+            for (int g = 0; g < F->nf; g++) {
+                const RowField* G = &F->f[g];
+                if (g == fld || G->w == 0 || overlaps(R, G)) continue;
+                uint64_t gm = mask_w((unsigned)G->w);
+                uint64_t ulim = (G->w <= (g_thorough ? 8 : 3)) ? gm : 8;
+                c.g = g;
+                for (uint64_t u = 0; u <= ulim && u <= gm; u++) { c.u = u; pv_enum((unsigned)R->w, c01_pval, &c); }
+                if (gm > ulim) {
+                    c.u = gm; pv_enum((unsigned)R->w, c01_pval, &c);
+                    if (!g_lite) for (unsigned i = 4; i < (unsigned)G->w; i++) { c.u = 1ull << i; pv_enum((unsigned)R->w, c01_pval, &c); }
+                }
+            }
+        }
+    }
+}
+
 typedef struct { int fmt, fld, path, bgi; } C01Ctx;
 static void c01_val(uint64_t v, void* vctx)
 {
@@ -220,6 +274,7 @@ static void suite_c01(void)
         const RowField* R = &g_fmts[fmt].f[fld];
         for (int path = 0; path <= R->hasg; path++) for (int bgi = 0; bgi < 4; bgi++) for (int bit = 0; bit < R->w; bit++) c01_reread_case(fmt, fld, path, bgi, bit);
     }
+    suite_c01_priors();
     if (my_unit()) for (int q = 0; q < 3; q++) for (int off = 0; off < 32; off += 5) for (int bits = 1; bits <= 64; bits += 7) {
         uint8_t buf[64], out8[8]; memset(buf, 0xA5, sizeof buf);
         unsigned k = (unsigned)(q * 32 + off);
@@ -267,6 +322,7 @@ static void replay_c01(int sub, long long p[8])
     if (sub == 2) c01_generic_case((int)p[0], (int)p[1], (int)p[2], (int)p[3], p[4]);
     else if (sub == 4) c01_reread_case((int)p[0], (int)p[1], (int)p[2], (int)p[3], (int)p[4]);
     else if (sub == 5) { g_nslices = 1; g_unit = 0; suite_c01(); }
+    else if (sub == 6) c01_prior_case((int)p[0], (int)p[1], (int)p[2], (int)p[3], (uint64_t)p[4], (uint64_t)p[5]);
     else if (sub == 3) {
         Obj o; const RowFmt* F = &g_fmts[p[0]];
         obj_fill(&o, F->len, BG[p[3]]);
@@ -340,6 +396,66 @@ static void c02_val(uint64_t v, void* vctx)
     c02_case(c->fmt, c->fld, c->path, c->bgi, c->a, v);
 }
 
+static void sv_small(unsigned w, valfn f, void* ctx);
+#define sv_small_fn sv_small
+/* Semantic priors: the prior buffer looks like a real header - the format's initial image (zeros where there is no
+ * initialiser) with one or two OTHER fields holding small values - so that a writer which consults the header it is
+ * writing into (a clamp by format, a mode switch by subtype) shows. sub 3: one other field g := u; sub 4: two. */
+static void c02_prior_case(int fmt, int fld, int path, int g, uint64_t u, uint64_t v)
+{
+    const RowFmt* F = &g_fmts[fmt];
+    Obj o; c02_prior_obj(&o, fmt);
+    ref_set(obj_hdr(&o), (unsigned)F->f[g].off, (unsigned)F->f[g].w, u & mask_w((unsigned)F->f[g].w));
+    char cs[160];
+    SETCS("C02", 3, (long long)(fmt), (long long)(fld), (long long)(path), (long long)(g), (long long)(u), (long long)((unsigned long long)v));
+    c02_run(cs, fmt, fld, path, &o, v);
+}
+static void c02_prior2_case(int fmt, int fld, int path, int g1, int g2, int u1, int u2, uint64_t v)
+{
+    const RowFmt* F = &g_fmts[fmt];
+    Obj o; c02_prior_obj(&o, fmt);
+    ref_set(obj_hdr(&o), (unsigned)F->f[g1].off, (unsigned)F->f[g1].w, (uint64_t)u1 & mask_w((unsigned)F->f[g1].w));
+    ref_set(obj_hdr(&o), (unsigned)F->f[g2].off, (unsigned)F->f[g2].w, (uint64_t)u2 & mask_w((unsigned)F->f[g2].w));
+    char cs[160];
+    SETCS("C02", 4, (long long)(fmt), (long long)(fld), (long long)(path), (long long)(g1 * 1000 + g2), (long long)(u1 * 1000 + u2), (long long)((unsigned long long)v));
+    c02_run(cs, fmt, fld, path, &o, v);
+}
+typedef struct { int fmt, fld, path, g1, g2, u1, u2; uint64_t u; } C02PCtx;
+static void c02_pval(uint64_t v, void* vctx) { C02PCtx* c = vctx; if (c->g2 < 0) c02_prior_case(c->fmt, c->fld, c->path, c->g1, c->u, v); else c02_prior2_case(c->fmt, c->fld, c->path, c->g1, c->g2, c->u1, c->u2, v); }
+static void suite_c02_priors(void)
+{
+    for (int fmt = 0; fmt < g_nfmts; fmt++) {
+        const RowFmt* F = &g_fmts[fmt];
+        for (int fld = 0; fld < F->nf; fld++) for (int path = 0; path <= F->f[fld].hass; path++) {
+            if (!my_unit()) continue;
+            hs_reset();
+            const RowField* R = &F->f[fld];
+            C02PCtx c = { fmt, fld, path, 0, -1, 0, 0, 0 };
+            for (int g = 0; g < F->nf; g++) {
+                const RowField* G = &F->f[g];
+                if (g == fld || G->w == 0 || overlaps(R, G)) continue;
+                uint64_t gm = mask_w((unsigned)G->w);
+                uint64_t ulim = (G->w <= (g_thorough ? 8 : 3)) ? gm : 8;
+                c.g1 = g; c.g2 = -1;
+                for (uint64_t u = 0; u <= ulim && u <= gm; u++) { c.u = u; if (g_lite) { sv_small_fn((unsigned)R->w, c02_pval, &c); } else pv_enum((unsigned)R->w, c02_pval, &c); }
+                if (gm > ulim) {
+                    c.u = gm; pv_enum((unsigned)R->w, c02_pval, &c);
+                    if (!g_lite) for (unsigned i = 4; i < (unsigned)G->w; i++) { c.u = 1ull << i; pv_enum((unsigned)R->w, c02_pval, &c); }
+                }
+            }
+            if (!g_thorough) continue;
+            /* two other fields with the values 1..4 each */
+            for (int g1 = 0; g1 < F->nf; g1++) for (int g2 = g1 + 1; g2 < F->nf; g2++) {
+                const RowField* A = &F->f[g1]; const RowField* B = &F->f[g2];
+                if (g1 == fld || g2 == fld || A->w == 0 || B->w == 0 || overlaps(R, A) || overlaps(R, B) || overlaps(A, B)) continue;
+                c.g1 = g1; c.g2 = g2;
+                for (c.u1 = 1; c.u1 <= 4; c.u1++) for (c.u2 = 1; c.u2 <= 4; c.u2++) pv_enum((unsigned)R->w, c02_pval, &c);
+            }
+        }
+    }
+    sample("C02 semantic priors: Pcm.bit_depth via Avtp_Pcm_SetBitDepth on the Avtp_Pcm_Init image with format := 4, every value 0..255");
+}
+
 static void sv_small(unsigned w, valfn f, void* ctx)
 {
     uint64_t m = mask_w(w);
@@ -379,6 +495,7 @@ static void suite_c02(void)
             }
         }
     }
+    suite_c02_priors();
     sample("C02 Can.can_identifier via Avtp_Can_SetCanIdentifier: prior = background 5A with window bit 131 flipped, v = 0x20000001 (wider than 29 bits); whole object (16 canary + header + 32 trailing bytes) diffed against ref_set, then read back by both readers");
     /* generic writer shapes: low quadlets with every offset/width, then a selection far into the PDU */
     static const int qs[16] = {1, 2, 6, 31, 32, 62, 63, 64, 65, 127, 128, 191, 192, 253, 254, 255};
@@ -421,6 +538,8 @@ static void suite_c02(void)
 static void replay_c02(int sub, long long p[8])
 {
     if (sub == 0) c02_case((int)p[0], (int)p[1], (int)p[2], (int)p[3], p[4], (uint64_t)p[5]);
+    else if (sub == 3) c02_prior_case((int)p[0], (int)p[1], (int)p[2], (int)p[3], (uint64_t)p[4], (uint64_t)p[5]);
+    else if (sub == 4) c02_prior2_case((int)p[0], (int)p[1], (int)p[2], (int)(p[3] / 1000), (int)(p[3] % 1000), (int)(p[4] / 1000), (int)(p[4] % 1000), (uint64_t)p[5]);
     else {
         int q = (int)p[0], off = (int)p[1], bits = (int)p[2], bgi = (int)p[3], k = (int)p[4];
         uint8_t raw[PRE + 8 + GBUF + POST] __attribute__((aligned(16)));
@@ -440,6 +559,7 @@ int main(int argc, char** argv)
 {
     const char* cs = NULL; int plant = 0;
     for (int i = 1; i < argc; i++) {
+        if (!strcmp(argv[i], "--worldinfo")) { printf("model=%llu big=%llu\n", (unsigned long long)w_world_model(), (unsigned long long)w_world_id()); return 0; }
         if (!strcmp(argv[i], "--suite")) g_suite = argv[++i];
         else if (!strcmp(argv[i], "--tier")) { i++; g_thorough = !strcmp(argv[i], "thorough"); g_lite = !strcmp(argv[i], "lite"); }
         else if (!strcmp(argv[i], "--off")) g_off = atoi(argv[++i]) & 7;
